@@ -1,4 +1,4 @@
-/-! Property theorems for C19 live in the three files imported here. -/
 import MirVerif.Props.C19.Htab
 import MirVerif.Props.C19.Bitmap
 import MirVerif.Props.C19.Seq
+/-! Property theorems for C19 live in the three files imported above. -/
